@@ -1,6 +1,7 @@
 package c15
 
 import (
+	"fmt"
 	"strconv"
 	"strings"
 
@@ -236,6 +237,43 @@ func warnCases(r *core.Rand, emit func([]string)) {
 	}
 }
 
+// constructedCases: messages that were never on the wire, field by field: ContentLength in {-1, 0, n}
+// x Body present / absent x TransferEncoding nil / chunked, requests and responses, under every logger.
+func constructedCases(r *core.Rand, emit func([]string)) {
+	type lg struct{ name, o1, o2 string }
+	loggers := []lg{{"har", "all", "all"}, {"har", "none", "none"}, {"text", "0", "0"}, {"text", "0", "1"}, {"text", "1", "0"},
+		{"snapshot", "0", "-"}, {"marbl", "-", "-"}}
+	for _, req := range []bool{true, false} {
+		for _, te := range []bool{false, true} {
+			var ops []string
+			for _, cl := range []int64{-1, 0, 23} {
+				for _, body := range []bool{true, false} {
+					for _, l := range loggers {
+						a := &msggen.Abs{Req: req, Major: 1, Minor: 1, NilTrailer: true, CL: cl,
+							Hdr: []msggen.KV{{K: "Content-Type", V: r.Pick("text/plain", "application/octet-stream")}, {K: "X-A", V: "1"}}}
+						if req {
+							a.Method, a.URL, a.Host = r.Pick("POST", "PUT"), "http://h.example/c", "h.example"
+						} else {
+							a.Code, a.Status = 200, "200 OK"
+						}
+						if te {
+							a.TE = []string{"chunked"}
+						}
+						if body {
+							a.Body = []byte("constructed body bytes.")
+						} else {
+							a.Body = nil // a Body that is present but empty (a nil Body is outside the domain)
+						}
+						core.Count("constructed:directed")
+						ops = append(ops, strings.Join(append([]string{"twinx", l.name, l.o1, l.o2, "0", "d", TrustedTok(a)}, a.Tokens()...), " "))
+					}
+				}
+			}
+			emit(ops)
+		}
+	}
+}
+
 // hugeCases: size thresholds. A logger (or the view it builds) may treat bodies differently beyond
 // some limit - a look-ahead buffer, a cap on what is kept for the log - and get the boundary wrong by
 // one. Bodies around powers of two up to 64 MiB, 16 MiB +-1 above all, for every framing and logger;
@@ -294,6 +332,7 @@ func (P) Gen(r *core.Rand, tier string, emit func([]string)) {
 	bigCases(r.Fork(), tier, emit)
 	hugeCases(r.Fork(), tier, emit)
 	warnCases(r.Fork(), emit)
+	constructedCases(r.Fork(), emit)
 	badCases(r.Fork(), emit)
 	multiCases(r.Fork(), tier, emit)
 	faultCases(r.Fork(), tier, emit)
@@ -357,10 +396,15 @@ func (P) Gen(r *core.Rand, tier string, emit func([]string)) {
 			b := msggen.Gen(r, r.Bool(), maxTwin)
 			ab := b.Abs()
 			m := "p"
-			if r.Chance(1, 10) {
+			if r.Chance(1, 6) {
 				m = "d"
-				if ab.Req && !ab.Chunked() && len(ab.Body) > 0 && r.Bool() {
-					ab.CL = -1 // a modifier replaced the body: length unknown
+				if !ab.Chunked() && len(ab.Body) > 0 && r.Chance(2, 3) {
+					// messages that were not parsed off the wire (a modifier replaced the body,
+					// proxyutil.NewResponse for a skipped round trip, http.NewRequest with a stream):
+					// net/http's "unknown length" is ContentLength -1 or 0 with a non-empty Body and no
+					// TransferEncoding; it decides the framing when it writes the message
+					ab.CL = int64(r.Pick2(-1, 0))
+					core.Count(fmt.Sprintf("constructed:cl=%d+body", ab.CL))
 				}
 				if r.Bool() {
 					// the same field name under keys of different case in the map (a modifier wrote
